@@ -825,3 +825,75 @@ def oriented(rc, rhs_pat):
     if not re.search(rhs_pat, rc[2]) and re.search(rhs_pat, rc[0]):
         return (rc[2], _FLIP[rc[1]], rc[0], rc[3])
     return rc
+
+
+def bool_truth_table(fn, nparams=None, skip_first=True):
+    """Exhaustive evaluation of a pure boolean function / closure over all assignments of its bool parameters (finite domain, evaluated on the
+    MIR: use/copy/move, Not, BitOr/BitAnd/BitXor/Eq/Ne, bool switch, goto, return).  Returns {tuple_of_bools: bool} or None when the body
+    contains anything else (call, memory access ..).  For closures the environment argument (_1) is skipped."""
+    import itertools
+    first = 2 if (fn.kind == 'closure' and skip_first) else 1
+    params = list(range(first, fn.nargs + 1))
+    table = {}
+    for vals in itertools.product([False, True], repeat=len(params)):
+        env = dict(zip(params, vals))
+
+        def ev(op):
+            if op[0] in ('c', 'm'):
+                pl = op[1]
+                if len(pl) != 1 or pl[0] not in env:
+                    raise KeyError(str(pl))
+                return env[pl[0]]
+            if op[0] == 'k':
+                v = op[3]
+                if isinstance(v, bool):
+                    return v
+                if v in (0, 1):
+                    return bool(v)
+                if op[1] in ('true', 'false'):
+                    return op[1] == 'true'
+                raise KeyError('const')
+            raise KeyError(op[0])
+        b = 0
+        steps = 0
+        try:
+            while True:
+                steps += 1
+                if steps > 200:
+                    return None
+                blk = fn.blocks[b]
+                for st in blk['s']:
+                    if st[0] != 'a' or len(st[1]) != 1:
+                        if st[0] in ('storage', 'nop'):
+                            continue
+                        return None
+                    rv = st[2]
+                    if rv[0] == 'use':
+                        if rv[1][0] == 'k' and rv[1][1] == '()':
+                            continue
+                        env[st[1][0]] = ev(rv[1])
+                    elif rv[0] == 'un' and rv[1] == 'Not':
+                        env[st[1][0]] = not ev(rv[2])
+                    elif rv[0] == 'bin' and rv[1] in ('BitOr', 'BitAnd', 'BitXor', 'Eq', 'Ne'):
+                        a_, b_ = ev(rv[2]), ev(rv[3])
+                        env[st[1][0]] = {'BitOr': a_ or b_, 'BitAnd': a_ and b_, 'BitXor': a_ != b_, 'Eq': a_ == b_, 'Ne': a_ != b_}[rv[1]]
+                    else:
+                        return None
+                t = blk['t']
+                if t[0] == 'goto':
+                    b = t[1]
+                elif t[0] == 'switch':
+                    v = ev(t[1])
+                    nxt = t[3]
+                    for val, tgt in t[2]:
+                        if bool(val) == v and val in (0, 1):
+                            nxt = tgt
+                    b = nxt
+                elif t[0] == 'ret':
+                    table[vals] = env[0]
+                    break
+                else:
+                    return None
+        except KeyError:
+            return None
+    return table
